@@ -33,12 +33,13 @@ META = {
 }
 
 COLS = ["ID", "Name", "Age", "Active", "Tags", "Raw"]
+ZERO_UUID = "00000000-0000-0000-0000-000000000000"
 UUIDS = ["11111111-1111-1111-1111-111111111111", "22222222-2222-2222-2222-222222222222",
-         "33333333-3333-3333-3333-333333333333", "0a0b0c0d-0000-4000-8000-00000000000f"]
+         "33333333-3333-3333-3333-333333333333", "0a0b0c0d-0000-4000-8000-00000000000f", ZERO_UUID]
 NAMES = ["Tom", "Mark", "O'Brien", "tom", "", "Zoë", 'x" OR "1"="1', "Ann", "x' OR '1'='1", "Tom "]
 AGES = [-5, 0, 1, 62, 63, 64, 1 << 40]
 TAGS = [[], ["a"], ["a", "b"], ["root", "logon"]]
-RAWS = ["{}", '{"x":1}', "[1,2]"]
+RAWS = ["{}", '{"x":1}', "[1,2]", ""]
 BADCOLS = ["Nmae", "user", "", "Name ", "na", "Names", "i d", "ïd"]
 CMPS = ["eq", "ne", "lt", "gt"]
 
@@ -58,49 +59,69 @@ def spell(rng, col):
     return rng.choice([col, col.lower(), col.upper(), col.swapcase()])
 
 
-def gen_filter(rng, bad):
+def gen_filter(rng, bad, stored=()):
+    """a filter on a random column; 60% of the constants are the value some stored record has in that column
+    (so eq/ne/lt/gt are exercised AT stored values, including the zero value of every field type)."""
     if bad and rng.random() < 0.5:
         return {"col": rng.choice(BADCOLS), "cmp": rng.choice(CMPS), "kind": "s", "val": rng.choice(NAMES)}
-    col = rng.choice(COLS + ["Name", "Age", "ID"])
+    col = rng.choice(COLS + ["Name", "Age", "ID", "ID"])
     cmp_ = rng.choice(["eq", "eq", "ne", "lt", "gt"])
+    rec = rng.choice(stored) if stored and rng.random() < 0.6 else None
     if col == "ID":
-        return {"col": spell(rng, col), "cmp": cmp_, "kind": rng.choice("us"), "val": rng.choice(UUIDS)}
+        return {"col": spell(rng, col), "cmp": cmp_, "kind": rng.choice("uus"), "val": rec["ID"] if rec else rng.choice(UUIDS)}
     if col == "Name":
-        return {"col": spell(rng, col), "cmp": cmp_, "kind": "s", "val": rng.choice(NAMES + ["N", "a"])}
+        return {"col": spell(rng, col), "cmp": cmp_, "kind": "s", "val": rec["Name"] if rec else rng.choice(NAMES + ["N", "a"])}
     if col == "Age":
-        return {"col": spell(rng, col), "cmp": cmp_, "kind": "i", "val": rng.choice(AGES + [2, 100])}
+        return {"col": spell(rng, col), "cmp": cmp_, "kind": "i", "val": rec["Age"] if rec else rng.choice(AGES + [2, 100])}
     if col == "Active":
-        return {"col": spell(rng, col), "cmp": cmp_, "kind": "b", "val": rng.random() < 0.5}
+        return {"col": spell(rng, col), "cmp": cmp_, "kind": "b", "val": rec["Active"] if rec else rng.random() < 0.5}
     if col == "Tags":
-        return {"col": spell(rng, col), "cmp": cmp_, "kind": "s", "val": tags_json(rng.choice(TAGS))}
-    return {"col": spell(rng, col), "cmp": cmp_, "kind": "s", "val": rng.choice(RAWS)}
+        return {"col": spell(rng, col), "cmp": cmp_, "kind": "s", "val": tags_json(rec["Tags"] if rec else rng.choice(TAGS))}
+    return {"col": spell(rng, col), "cmp": cmp_, "kind": "s", "val": rec["Raw"] if rec else rng.choice(RAWS)}
 
 
-def gen_filters(rng, bad):
+def gen_filters(rng, bad, stored=()):
     n = rng.choice([0, 1, 1, 1, 2, 2, 3])
     out = []
     for _ in range(n):
-        out.append(None if rng.random() < 0.2 else gen_filter(rng, bad))
+        out.append(None if rng.random() < 0.2 else gen_filter(rng, bad, stored))
     return out
+
+
+def zero_rec(rng):
+    """every field at its zero / boundary value with probability 1/2 each"""
+    r = gen_rec(rng)
+    for k, z in (("ID", ZERO_UUID), ("Name", ""), ("Age", 0), ("Active", False), ("Tags", []), ("Raw", "")):
+        if rng.random() < 0.5:
+            r[k] = z
+    return r
 
 
 def gen_history(rng, bad):
     ops = []
+    stored = []
     r = rng.random()
     if r < 0.85:
         ops.append({"op": "createif"})
     elif r < 0.95:
         ops.append({"op": "create"})
+
+    def ins():
+        rec = zero_rec(rng) if rng.random() < 0.3 else gen_rec(rng)
+        stored.append(rec)
+        return {"op": "insert", "rec": rec}
     for _ in range(rng.randint(2, 5)):
-        ops.append({"op": "insert", "rec": gen_rec(rng)})
+        ops.append(ins())
     for _ in range(rng.randint(3, 9)):
         k = rng.choices(["insert", "read", "update", "delete", "create", "createif"], [3, 6, 3, 2, 0.3, 0.3])[0]
         if k == "insert":
-            ops.append({"op": k, "rec": gen_rec(rng)})
+            ops.append(ins())
         elif k == "update":
-            ops.append({"op": k, "rec": gen_rec(rng), "filters": gen_filters(rng, bad)})
+            rec = zero_rec(rng) if rng.random() < 0.3 else gen_rec(rng)
+            ops.append({"op": k, "rec": rec, "filters": gen_filters(rng, bad, stored)})
+            stored.append(rec)
         elif k in ("read", "delete"):
-            ops.append({"op": k, "filters": gen_filters(rng, bad)})
+            ops.append({"op": k, "filters": gen_filters(rng, bad, stored)})
         else:
             ops.append({"op": k})
     ops.append({"op": "read", "filters": []})
@@ -130,6 +151,18 @@ def corpus():
                 {"op": "update", "rec": rec(0, "All", 7, False), "filters": []},
                 {"op": "update", "rec": rec(1, "Clash", 7, False), "filters": [F("id", "eq", "s", UUIDS[0])]},
                 {"op": "read", "filters": [F("tags", "eq", "s", "[]")]}, {"op": "read", "filters": []}],
+        # zero / boundary value of every field type, every operator with a constant equal to a stored value
+        # (seeded change C30-2: a zero uuid stored as "" no longer matches the filter constant)
+        [{"op": "createif"}, {"op": "insert", "rec": rec(4, "", 0, False, [], "")}, {"op": "insert", "rec": rec(0, "Tom", 63, True, ["a"], "{}")},
+         {"op": "insert", "rec": rec(1, "Mark", -5, False, [], "[1,2]")}] +
+        [{"op": "read", "filters": [F(c, o, k, v)]} for c, k, v in (("ID", "u", ZERO_UUID), ("id", "s", ZERO_UUID), ("Name", "s", ""),
+                                                                     ("Age", "i", 0), ("Active", "b", False), ("Tags", "s", "[]"),
+                                                                     ("Raw", "s", ""), ("ID", "u", UUIDS[0]), ("Age", "i", 63),
+                                                                     ("Name", "s", "Tom"))
+         for o in CMPS] +
+        [{"op": "update", "rec": rec(4, "Nil", 1, True), "filters": [F("ID", "eq", "u", ZERO_UUID)]}, {"op": "read", "filters": []},
+         {"op": "delete", "filters": [F("ID", "ne", "u", ZERO_UUID), F("Age", "gt", "i", 0)]}, {"op": "read", "filters": []},
+         {"op": "delete", "filters": [F("ID", "eq", "u", ZERO_UUID)]}, {"op": "read", "filters": []}],
         [{"op": "insert", "rec": rec(0, "Tom", 63, True)}, {"op": "read", "filters": []}, {"op": "create"},
          {"op": "create"}, {"op": "createif"}, {"op": "delete", "filters": []}],
     ]
@@ -337,7 +370,9 @@ def run(ck):
     quick = ck.tier == "quick"
     ck.cov["rule"] = ("histories over verifRec{ID uuid; Name string; Age int; Active bool; Tags []string; Raw json.RawMessage} "
                       "on a fresh SQLite file each: create/createif, 2-5 inserts (4 uuids so keys collide), then 3-9 of "
-                      "insert/read/update/delete with 0-3 filters (20% nil per slot, eq/ne/lt/gt, column names in mixed "
+                      "insert/read/update/delete with 0-3 filters (20% nil per slot, eq/ne/lt/gt, 60% of the constants equal to a "
+                      "stored value of that column, 30% of the records with zero/boundary fields - zero uuid, '', 0, false, [], "
+                      "empty raw json -, column names in mixed "
                       "case, type-correct values incl. quotes and non-ASCII), 25% of the histories also use unknown column "
                       "names; fixed corpus first. distinct_nontrivial = distinct (op, per-slot filter pattern, result "
                       "class, row count) tuples observed on the real code with at least one non-nil filter")
@@ -385,7 +420,7 @@ def run(ck):
     # ---- property oracle on the implementation: a keyed in-memory table
     nontriv = set()
     nops = 0
-    dist = {"histories": len(hs), "ops": 0, "nil_filters": 0, "unknown_column_filters": 0, "nil_before_filter_ops": 0,
+    dist = {"histories": len(hs), "ops": 0, "zero_uuid_records": 0, "filters_on_zero_uuid": 0, "nil_filters": 0, "unknown_column_filters": 0, "nil_before_filter_ops": 0,
             "key_collisions": 0, "reads_with_rows": 0, "errors": 0}
     oracle_bad = set()
     for i, h in enumerate(hs):
@@ -395,6 +430,8 @@ def run(ck):
             nops += 1
             fs = o.get("filters") or []
             dist["nil_filters"] += sum(1 for f in fs if f is None)
+            dist["zero_uuid_records"] += o["op"] in ("insert", "update") and o["rec"]["ID"] == ZERO_UUID
+            dist["filters_on_zero_uuid"] += sum(1 for f in fs if f is not None and f["val"] == ZERO_UUID)
             dist["unknown_column_filters"] += sum(1 for f in fs if f is not None and resolve([f]) is None)
             if fs and fs[0] is None and any(f is not None for f in fs):
                 dist["nil_before_filter_ops"] += 1
